@@ -48,8 +48,8 @@ const (
 )
 
 func expect(in []byte, rule, maxLen int) (cls int, y int64, m, d int) {
-	if maxLen == -1 {
-		maxLen = 10
+	if maxLen == -1 { // the limit in force in the default configuration ("within the length limit": the statement does not fix its value)
+		maxLen = libdefaults.DateMaxInputLength
 	}
 	if len(in) == 0 {
 		return expReject, 0, 0, 0
@@ -86,6 +86,15 @@ func judge(in []byte, rule, maxLen int, bytesInput bool, got date.Date, err erro
 	cls, y, m, d := expect(in, rule, maxLen)
 	switch cls {
 	case expAccept:
+		if err != nil && rule&^int(date.RuleDisableBasic) != 0 {
+			// a rule value with bits the pinned library does not define: such a bit may belong to an option that rejects more
+			// (the statement knows one rule); what the defined bit forbids stays forbidden, and an accepted text must still
+			// have the written components
+			if got != (date.Date{}) {
+				return "nonzero_result_with_error", fmt.Sprintf("%q: result %v with error %v", in, got, err)
+			}
+			return "", ""
+		}
 		if err != nil {
 			return "valid_date_rejected", fmt.Sprintf("%q rejected: %v", in, err)
 		}
@@ -232,7 +241,7 @@ func main() {
 				p.Do(w, arg{In: mc.Bin(s), Rule: rule, MaxLen: ml, Path: path, Zone: zone})
 			}
 		}
-		r.Phase("rule values with bits beyond RuleDisableBasic (2, 3, 6, 7, -1, 1<<20|1): only the RuleDisableBasic bit matters; valid and near-valid texts x 5 entry points", "complete grid", func() {
+		r.Phase("rule values with bits beyond RuleDisableBasic (2, 3, 6, 7, -1, 1<<20|1): what RuleDisableBasic forbids stays forbidden, nothing invalid becomes valid, accepted texts have the written components (rejections under undefined bits are not judged); valid and near-valid texts x 5 entry points", "complete grid", func() {
 			texts := []string{"20200229", "20210229", "2020-02-29", "2021-02-29", "00010101", "0001-01-01", "99991231", "2020-0229", "202002-29", "", "2020-02-30", "20200230"}
 			setup(arg{MaxLen: 10})
 			r.Serial(func(w *mc.W) {
